@@ -1,7 +1,7 @@
 (* C02 — Formatting is idempotent.
    What a proof can carry: at the paragraph level the wrapped form is a function of the word
    sequence, and re-reading the wrapped lines gives that word sequence back, so wrapping the
-   wrapped lines again changes nothing (plain mode, whitespace splitter, every positive width and
+   wrapped lines again changes nothing (plain mode, whitespace splitter, every width (wrapping or not) and
    every pair of columns); frontmatter: an unclosed frontmatter document is a fixpoint of the whole
    formatter (Props/C07.v).  Whether Marko reads the canonical spelling back as the same tree, and
    the Markdown-aware splitter, are covered by the two-pass runs of harness/c02.py (model and
@@ -18,7 +18,7 @@ Theorem C02_reread_gives_the_words : forall esc text width c0 c1,
 Proof. exact wrap_words_reread. Qed.
 Print Assumptions C02_reread_gives_the_words.
 
-Theorem C02_wrap_idempotent : forall esc text width c0 c1, 0 < width ->
+Theorem C02_wrap_idempotent : forall esc text width c0 c1,
   wrap_paragraph_lines esc split_ws
     (join [nl] (wrap_paragraph_lines esc split_ws text width c0 c1 true true false)) width c0 c1 true true false
   = wrap_paragraph_lines esc split_ws text width c0 c1 true true false.
